@@ -174,3 +174,54 @@ def stress_programs():
     out.append(("import/odd", "try { import \"\"; } catch e { print(type(e)); }\ntry { import \"..\"; } catch e { print(type(e)); }\n"
                               "try { import \"a/b/../c\" as q; } catch e { print(type(e)); }\ntry { import \"hostmod\" as h; print(h.f(1)); } catch e { print(type(e)); }\n"))
     return [(n, s, MODS) for n, s in out]
+
+
+EXTREME_NUMS = ["0", "-0", "1", "-1", "2", "0.5", "-0.5", "3", "255", "256", "65536", "2147483647", "2147483648", "-2147483648", "4294967296",
+                "9007199254740991", "9007199254740992", "9007199254740993", "-9007199254740992", "9223372036854775807", "9223372036854775808",
+                "-9223372036854775808", "-9223372036854775809", "18446744073709551616", "(1 / 0)", "(-1 / 0)", "(0 / 0)",
+                "0.000000000000000000000000000001", "179769313486231570000000000000000000000000000000000000000000000000000000000000000000000000000000000000000000000000000000000000000000000000000000000000000000000000000000000000000000000000000000000000000000000000000000000000000000000000000000000000000000000000000000000000000000000000000000000000000000000000000"]
+ARITH_OPS = ["+", "-", "*", "/", "%", "&", "|", "^", "<<", ">>", "<", "<=", "==", ".."]
+
+
+def extreme_arith_programs(rng, quick):
+    """every arithmetic / bitwise / shift / comparison / range operator on every pair of extreme numbers (the neighbours of
+    2^31, 2^32, 2^53, 2^63 and 2^64, signed zeros, infinities, NaN, the largest and a tiny double), unary operators,
+    and the same values as index, repeat count and range bound"""
+    lines = []
+    for a in EXTREME_NUMS:
+        for op in ["-", "~", "!"]:
+            lines.append("try { print(%s%s); } catch e { print(type(e)); print(e.context); }" % (op, a))
+        for b in EXTREME_NUMS:
+            ops = ARITH_OPS if not quick else rng.sample(ARITH_OPS, 5)
+            for op in ops:
+                lines.append("try { print(%s %s %s); } catch e { print(type(e)); print(e.context); }" % (a, op, b))
+        lines.append("try { print([1, 2, 3][%s]); } catch e { print(type(e)); print(e.context); }" % a)
+        lines.append("try { print(\"abc\"[%s]); } catch e { print(type(e)); print(e.context); }" % a)
+        lines.append("try { print(\"abc\".find(\"b\", %s)); } catch e { print(type(e)); print(e.context); }" % a)
+        lines.append("try { print(String.from_code_points([%s])); } catch e { print(type(e)); print(e.context); }" % a)
+        lines.append("try { var n = 0; for q in %s..(%s + 3) { n = n + 1; if n > 5 { break; } } print(n); } catch e { print(type(e)); print(e.context); }" % (a, a))
+    lines = rng.shuffle(lines)
+    per = 300
+    return [("extreme/%d" % (i // per), "\n".join(lines[i:i + per]) + "\n", []) for i in range(0, len(lines), per)]
+
+
+def statement_call_programs(rng, quick):
+    """built-in calls written as bare statements at script level, in a block and as the first statement of a fiber body
+    (nothing else on the operand stack below the call), with every wrong argument count"""
+    names = method_names()
+    lines = []
+    recvs = [p for p in POOL if p not in NO_COLLECT]
+    for meth in names:
+        for recv in (recvs if not quick else rng.sample(recvs, 6)):
+            for args in ([], [rng.choice(ARGS)], [rng.choice(ARGS), rng.choice(ARGS)], [rng.choice(ARGS)] * 3):
+                if meth in ("collect", "reduce", "map", "filter") and recv in NO_COLLECT:
+                    continue
+                lines.append("try { %s.%s(%s); print(\"ran\"); } catch e { print(type(e)); print(e.context); }" % (recv, meth, ", ".join(args)))
+    lines = rng.shuffle(lines)[:4000 if quick else None]
+    per = 250
+    out = []
+    for i in range(0, len(lines), per):
+        chunk = lines[i:i + per]
+        out.append(("stmtcall/%d" % (i // per), POOL_PRELUDE + "\n".join(chunk) + "\n"
+                    + "var fbs = Fiber.new(|| { %s return 1; });\nprint(fbs.call());\n" % " ".join(chunk[:20]), MODS))
+    return out
